@@ -105,12 +105,16 @@ pub fn decode_hunk(bytes: &[u8]) -> Value {
         Err(_) => return payload("garbage"),
     };
     match serde_json::from_slice::<Vec<RawEntry>>(&raw) {
-        // the documented value spaces: a kind is one of three words (plus "Unknown", which
-        // readers have always had to tolerate), a block hash is 128 hex digits
+        // the documented value spaces: a kind is one of three words (plus "Unknown", which readers have
+        // always had to tolerate), a block hash is 128 hex digits, a path is a valid apath, the
+        // nanoseconds are below a second and the seconds a time that exists
         Ok(es)
             if es.iter().all(|e| {
                 matches!(e.kind.as_str(), "File" | "Dir" | "Symlink" | "Unknown")
                     && e.addrs.iter().all(|a| a.hash.len() == 128 && a.hash.bytes().all(|c| c.is_ascii_hexdigit()))
+                    && apath_valid(&e.apath)
+                    && e.mtime_nanos < 1_000_000_000
+                    && (-377_705_023_201..=253_402_207_200).contains(&e.mtime)
             }) =>
         {
             let mut p = payload("ok");
@@ -263,10 +267,19 @@ pub fn diff_signature(a: &Value, b: &Value) -> String {
     if ea.len() != eb.len() {
         sig.push("es.count".into());
     }
-    for (x, y) in ea.iter().zip(eb.iter()) {
+    let n = ea.len().min(eb.len());
+    for (i, (x, y)) in ea.iter().zip(eb.iter()).enumerate() {
         for k in ["p", "pv", "k", "mt", "mode", "u", "g", "t", "ht"] {
             if x[k] != y[k] {
-                sig.push(k.to_string());
+                if k == "p" {
+                    // where in the hunk, and in which direction: logic that keys off the first or the last
+                    // path of a hunk is what an altered path can mislead
+                    let pos = if i + 1 == n { "last" } else if i == 0 { "first" } else { "mid" };
+                    let dir = if y[k].to_string() > x[k].to_string() { "up" } else { "down" };
+                    sig.push(format!("p@{pos}:{dir}"));
+                } else {
+                    sig.push(k.to_string());
+                }
             }
         }
         let (ax, ay) = (x["a"].as_array().cloned().unwrap_or_default(), y["a"].as_array().cloned().unwrap_or_default());
